@@ -482,11 +482,9 @@ func executeEch(t *testing.T, prop string, seed uint64, p *EchPlan) *core.Result
 			MaxConcurrency: p.MaxConc, ConcurrencyDelay: time.Duration(p.DelayNs), Timeout: time.Duration(p.TimeoutNs), DialFunc: es.dialFunc(p)}
 		ctx, cancel := context.WithCancel(context.Background())
 		defer cancel()
-		var panicked bool
-		panicked, panicS, panicAt = core.Guard(func() {
+		_, panicS, panicAt = core.Guard(func() {
 			retConn, retErr = d.Dial(ctx, p.Network, addr, caller)
 		})
-		_ = panicked
 		retSeq = es.rs.seq.Add(1)
 		retT = int64(time.Since(es.rs.t0))
 		if rest := horizon - time.Since(es.rs.t0); rest > 0 {
@@ -752,12 +750,10 @@ func judgeEch(res *core.Result, prop string, p *EchPlan, es *echState, caller, b
 	// --- RequireECH refusals: addresses the model says have no list, never dialled
 	if p.RequireECH && cl == nil && p.PublicName == "" {
 		for _, m := range models {
-			for ip, owner := range m.own {
-				if owner != nil && owner.ECH > 0 {
-					continue
+			for _, owner := range m.own {
+				if owner == nil || owner.ECH == 0 {
+					refusalPossible = true
 				}
-				refusalPossible = true
-				_ = ip
 			}
 		}
 		if refusalPossible && retConn == nil && retErr != nil && strings.Contains(retErr.Error(), "unable to get ECH config list") {
